@@ -7,10 +7,10 @@ The hierarchy is discovered from the code: field I is *inner* to field O when so
   (2) every statement `O = <...>.begin()` where O has an inner field I: I is assigned later in the same
       block.
 A stale inner iterator dereferences an element of the previous container (wrong or freed rule)."""
-from vfacts import strip, walk, method_name, is_node
+from vfacts import strip, walk, method_name, is_node, must_pass_through
 
 RULE = 'ITER'
-FLOOR = 8
+FLOOR = 5
 ANCHORS = ['Iterator::operator++', 'AcceptTransIterator::operator++', 'DownAccessorIterator::operator++']
 
 
@@ -68,53 +68,57 @@ def run(unit, em):
         short = fn.q.replace('VATA::ExplicitTreeAutCoreUtil::', '')
         if short in ANCHORS:
             em.anchor(fn, short)
+        cfg = fn.cfg()
+        if cfg is None:
+            continue
         asg = assignments_to_fields(fn)
-        # (1) advancing comparisons
-        for n in fn.walk():
-            if n['k'] != 'IfStmt':
-                continue
-            c = strip(n['c'])
+
+        def writes_field(x, F):
+            return any(a_ is x and f_ == F for a_, f_, _ in asg)
+
+        def end_cmp(cn, O):
+            """True/False = which edge of this condition is the not-at-end edge for field O; None if unrelated"""
+            c = strip(cn)
             if c is None or c['k'] != 'CXXOperatorCallExpr' or c.get('op') not in ('!=', '==') or len(c.get('args', [])) != 2:
+                return None
+            has_end = any(x['k'] == 'CXXMemberCallExpr' and method_name(x) in ('end', 'cend') for a_ in c['args'] for x in walk(a_))
+            side_o = [a_ for a_ in c['args'] if not any(x['k'] == 'CXXMemberCallExpr' and method_name(x) in ('end', 'cend') for x in walk(a_))]
+            if not has_end or len(side_o) != 1:
+                return None
+            if not any(field_of(x) == O for x in walk(side_o[0]) if x['k'] == 'MemberExpr'):
+                return None
+            return c['op'] == '!='
+        # (1) every advance ++O: on the not-at-end paths each inner field is re-seated before the method returns
+        for n in fn.walk():
+            if n['k'] != 'CXXOperatorCallExpr' or n.get('op') != '++' or not n.get('args'):
                 continue
-            adv = None
-            for a in c['args']:
-                for s in walk(a):
-                    if s['k'] == 'CXXOperatorCallExpr' and s.get('op') == '++' and s.get('args') and field_of(s['args'][0]):
-                        adv = field_of(s['args'][0])
-            other_is_end = any(x['k'] == 'CXXMemberCallExpr' and method_name(x) in ('end', 'cend') for a in c['args'] for x in walk(a))
-            if not adv or not other_is_end:
+            O = field_of(n['args'][0])
+            if not O or O not in inner:
                 continue
-            branch = n.get('th') if c['op'] == '!=' else n.get('el')
-            txt = unit.text(n['c'], 80)
-            for I in sorted(inner.get(adv, [])):
-                if branch is None:
-                    em.unknown(n, txt, 'not-at-end branch not explicit', 'advance:' + I)
-                    continue
-                assigned = any(f == I and any(x is a for x in walk(branch)) for a, f, _ in asg)
-                if assigned:
-                    em.ok(n, txt, '%s re-seated on the not-at-end branch' % I, 'advance:' + I)
+            pos = cfg.locate(n)
+            if pos is None:
+                continue
+            txt = unit.text(n, 60)
+            for I in sorted(inner[O]):
+                ok, wit = must_pass_through(cfg, pos, lambda x: x['k'] == 'ReturnStmt', lambda x, I=I: writes_field(x, I),
+                                            edge_filter=lambda cn, O=O: end_cmp(cn, O))
+                if ok:
+                    em.ok(n, txt, '%s re-seated on every not-at-end path before returning' % I, 'advance:' + I)
                 else:
-                    em.violation(n, txt, 'after %s advances to a new element its inner iterator %s is not re-seated to that element\'s begin(): it keeps pointing into the previous container' % (adv, I), 'advance:' + I)
-        # (2) re-seating statements
+                    em.violation(n, txt, 'after %s advances to a new element its inner iterator %s is not re-seated to that element\'s begin() on some path: it keeps pointing into the previous container' % (O, I), 'advance:' + I)
+        # (2) re-seating statements O = <...>.begin(): the inner field is re-seated before the method returns
         for a, f, rhs in asg:
-            if not any(y['k'] == 'CXXMemberCallExpr' and method_name(y) in ('begin', 'cbegin') for y in walk(rhs)):
+            if f not in inner or not any(y['k'] == 'CXXMemberCallExpr' and method_name(y) in ('begin', 'cbegin') for y in walk(rhs)):
                 continue
-            for I in sorted(inner.get(f, [])):
-                p = a.get('_p')
-                while p is not None and p['k'] in ('ExprWithCleanups',):
-                    a = p
-                    p = p.get('_p')
-                later = False
-                if p is not None and p['k'] == 'CompoundStmt':
-                    seen = False
-                    for sib in p['ch']:
-                        if sib is a or any(x is a for x in walk(sib)):
-                            seen = True
-                            continue
-                        if seen and any(f2 == I and any(x is a2 for x in walk(sib)) for a2, f2, _ in asg):
-                            later = True
-                txt = unit.text(a, 80)
-                if later:
+            pos = cfg.locate(a)
+            if pos is None:
+                continue
+            txt = unit.text(a, 80)
+            for I in sorted(inner[f]):
+                ok, wit = must_pass_through(cfg, pos, lambda x: x['k'] == 'ReturnStmt', lambda x, I=I: writes_field(x, I))
+                if ok and fn.d.get('fk') == 'ctor':
+                    ok, _ = must_pass_through(cfg, pos, None, lambda x, I=I: writes_field(x, I))
+                if ok:
                     em.ok(a, txt, '%s re-seated afterwards' % I, 'reseat:' + I)
                 else:
-                    em.violation(a, txt, '%s is moved to a new container but its inner iterator %s is not re-seated in the same block' % (f, I), 'reseat:' + I)
+                    em.violation(a, txt, '%s is moved to a new container but its inner iterator %s is not re-seated before the method returns' % (f, I), 'reseat:' + I)
